@@ -28,11 +28,21 @@ ASSUMPTIONS = ["entries carry the recorded log_p_one (synthetic values); chain 0
 
 @st.composite
 def _case(draw):
-    ds = draw(tg.st_dataset())
-    k = draw(st.integers(1, 5))
+    many = draw(st.sampled_from([False, False, False, True]))
+    ds = draw(tg.st_dataset(n_min=5 if many else 1))
+    k = draw(st.integers(11, 14)) if many else draw(st.sampled_from([2, 3, 1, 4, 5]))
     pool = [draw(gen.st_mtree(indices=list(range(ds["n"])), outliers=True, max_outliers=ds["n"])) for _ in range(k)]
-    ent = draw(tg.st_entries(len(pool)))
-    return dict(ds=ds, pool=pool, ent=ent, top=draw(st.sampled_from([None, 1, 2, 3, 7])))
+    ent = draw(tg.st_entries(len(pool), max_entries=10 if many else 8))
+    if many:
+        # every pool tree occurs at least once, so reports with >= 10 rows (two-digit topology ids) are reached
+        flat = [e for ch in ent["chains"] for e in ch["entries"]]
+        while len(flat) < len(pool):
+            e = dict(flat[len(flat) % max(1, len(flat))])
+            ent["chains"][len(flat) % len(ent["chains"])]["entries"].append(e)
+            flat.append(e)
+        for j, e in enumerate(flat[: len(pool)]):
+            e["tree"] = j
+    return dict(ds=ds, pool=pool, ent=ent, top=draw(st.sampled_from([None, 1, 2, 3, 7, 5, 11])))
 
 
 def strategy(ctx):
@@ -170,6 +180,8 @@ def _evaluate(case, td):
         classes.append("score-ties")
     if case["top"] is not None and case["top"] < len(rows):
         classes.append("archive-truncated")
+    if len(rows) >= 11:
+        classes.append("topologies>=11")
     if any(MTree.from_json(p).k == 0 for p in case["pool"]):
         classes.append("all-outlier-tree")
     return Outcome(nontrivial=len(groups) >= 2 and repeated, classes=tuple(classes), info=dict(n=case["ds"]["n"], chains=[c["chain_num"] for c in case["ent"]["chains"]], entries=len(flat), groups=len(groups), top=case["top"]), weight=len(flat))
